@@ -496,6 +496,8 @@ class Data(Field):
             and not include_delimiter else b''
         )
 
+        self.delimiter_slot = None
+
         assert not (consume_delimiter == False and include_delimiter == True)
         self.consume_delimiter = consume_delimiter  #XXX document this!
         self.is_fixed = isinstance(byte_count, int)
@@ -538,6 +540,12 @@ class Data(Field):
             elif hasattr(self.until_marker, 'search'):
                 self.unpack = self._unpack_with_regexp_marker
 
+                # the delimiter matched by the regexp belongs to the packet
+                # that was parsed, not to this field object which is shared
+                # by all the packets of the class
+                self.delimiter_slot = "_delimiter_of_%s" % self.field_name
+                slots.append(self.delimiter_slot)
+
             else:
                 assert False
 
@@ -555,7 +563,11 @@ class Data(Field):
         )
 
     def pack(self, pkt, fragments, **k):
-        r = getattr(pkt, self.field_name) + self.delimiter_to_be_included
+        delimiter = self.delimiter_to_be_included
+        if self.delimiter_slot is not None:
+            delimiter = getattr(pkt, self.delimiter_slot, delimiter)
+
+        r = getattr(pkt, self.field_name) + delimiter
         fragments.append(r)
         return fragments
 
@@ -646,7 +658,14 @@ class Data(Field):
                     count = match.start()
                     if self.consume_delimiter:
                         extra_count = match.end() - count
-                    self.delimiter_to_be_included = match.group()
+
+                    try:
+                        setattr(pkt, self.delimiter_slot, match.group())
+                    except AttributeError:
+                        # the packet has no slot for us (fields created at
+                        # runtime by a Ref's callable are never shared)
+                        self.delimiter_slot = None
+                        self.delimiter_to_be_included = match.group()
             else:
                 assert False
 
